@@ -3,7 +3,7 @@
 (* from real cogent3 writes under fault injection (harness/faults_C19.py):    *)
 (*   [cfg |-> name of the configuration that transcribes the writer,          *)
 (*    pre |-> "absent" | "Old",                                               *)
-(*    events |-> << [call |-> c, kind |-> "call" | "fault" | "kill",          *)
+(*    events |-> << [call |-> c, kind |-> "call"|"fault"|"interrupt"|"kill",  *)
 (*                   dest |-> d, tmp |-> "absent" | "present"] ... >>,        *)
 (*    end |-> [how |-> h, dest |-> d, tmp |-> t]]                             *)
 (* Each event is logged at a call boundary, with the file-system state seen   *)
@@ -27,7 +27,7 @@ TraceInit ==
     /\ tid \in 1..Len(Traces) /\ l = 1
     /\ cfg = ConfigNamed(Traces[tid].cfg) /\ pre = Traces[tid].pre
     /\ dest = pre /\ tmp = "absent" /\ pc = "mkdtemp"
-    /\ how = "running" /\ fcall = "none" /\ exc = FALSE
+    /\ how = "running" /\ fcall = "none" /\ exc = "no"
 
 Sees(e) == dest = e.dest /\ Coarse(tmp) = e.tmp
 
@@ -37,6 +37,7 @@ CallStep ==
          /\ Sees(e)
          /\ CASE e.kind = "call"  -> CallT(e.call)
               [] e.kind = "fault" -> FaultT(e.call)
+              [] e.kind = "interrupt" -> InterruptT(e.call)
               [] e.kind = "kill"  -> CrashT /\ e.call \in NextCall(pc)
               [] OTHER            -> FALSE
     /\ l' = l + 1 /\ UNCHANGED tid
